@@ -539,6 +539,27 @@ def r6_delitem_routing(rep, src):
         raise AnalysisError('no __delitem__ that removes through remove_kvpair_element found')
 
 
+def r8_field_names(rep, src):
+    """every field name Policy 5.1 allows -- US-ASCII U+0021..U+007E without the colon, not starting with '#' or '-' -- is a field
+    name for the parser: "<name>: v" is matched by the field-line regex with exactly that name (else the field can be neither parsed
+    nor set through the dictionary interface)"""
+    r = src.regex('_deb822_repro.tokens', '_RE_FIELD_LINE')
+    rep.saw_regex('_deb822_repro.tokens:_RE_FIELD_LINE')
+    alpha = rx.alphabet('str')
+    POLICY = r'[\x21\x22\x24-\x2C\x2E-\x39\x3B-\x7E][\x21-\x39\x3B-\x7E]*'
+    markers = [('open', 'field_name'), ('close', 'field_name')]
+    tm = rx.regex_lang('(?P<field_name>%s): v' % POLICY, 0, 'fullmatch', ['field_name'], markers, alpha)
+    te = rx.erase_markers(tm)
+    w1, w2 = rx.agreement(r['pattern'], r['flags'], 'match', tm, te, ['field_name'], alpha=alpha)
+    site = '_deb822_repro.tokens:_RE_FIELD_LINE'
+    if w1 is None and w2 is None:
+        rep.ok('C05.R8', site, 'every Policy field name is a field name', 'all names over U+0021..U+007E without ":" that do not start with "#" or "-" are captured as written')
+    else:
+        w = w1 if w1 is not None else w2
+        rep.fail('C05.R8', site, 'every Policy field name is a field name', 'the line %r with a field name that Policy 5.1 allows is %s: such a field is a syntax error for the '
+                 'parser and cannot be added through the dictionary interface' % (w, 'not matched as a field' if w1 is not None else 'matched with another name'), detail={'witness': w})
+
+
 def check(src, rep, tier):
     rep.explanation = ('C05: set/remove of both paragraph classes are interpreted on symbolic heaps (shared with C10): a new key calls the '
                        'final-newline helper before the first mutation and is appended last, an existing key is replaced in place without the '
@@ -558,6 +579,8 @@ def check(src, rep, tier):
     rep.guard('C05.R4', r4_validate_before_commit, src)
     rep.guard('C05.R5', r5_setitem_routing, src)
     rep.guard('C05.R6', r6_delitem_routing, src)
+    rep.need('C05.R8', 1)
+    rep.guard('C05.R8', r8_field_names, src)
     rep.need('C05.R7', 1)
     rep.guard('C05.R7', common.check_line_primitive, src, 'C05.R7', ['_deb822_repro.parsing:Deb822ParagraphElement.set_field_from_raw_string'],
               'a new value that contains such a character inside a line is refused (its "line" has no trailing newline) although the parser reads it')
